@@ -6,6 +6,7 @@ CONSTANT Cuts = {0, 7, 19}
 CONSTANT SafeDepth = 100
 CONSTANT SafeChain = 100
 CONSTANT HeavyTransports = {"execute", "json", "ws"}
+CONSTANT Wide = FALSE
 CONSTANT Dev = {}
 SPECIFICATION Spec
 INVARIANT TypeOK
